@@ -111,6 +111,7 @@ type Ctx struct {
 	// current case for the rapid runner
 	lastFail *failure
 	surveyN  int
+	knownHit map[string]bool
 }
 
 type failure struct {
@@ -323,6 +324,22 @@ func (c *Ctx) CaseFail(t *rapid.T, sig, msg string, cas any) {
 			rf := ReplayFile{Property: c.Check.ID, Sig: sig, Msg: msg, Seed: c.Seed, Tier: c.Tier, Case: raw}
 			b, _ := json.MarshalIndent(rf, "", " ")
 			_ = os.WriteFile(filepath.Join(dir, fmt.Sprintf("s%02d-%04d-%s.json", c.Shard, n, sanitize(sig))), b, 0o644)
+		}
+		return
+	}
+	if KnownFor(c.Check.ID, sig) != nil {
+		// a listed known finding that is not excluded by construction: report
+		// it once (as KNOWN-FINDING) and let the campaign continue
+		c.mu.Lock()
+		first := !c.knownHit[sig]
+		if c.knownHit == nil {
+			c.knownHit = map[string]bool{}
+		}
+		c.knownHit[sig] = true
+		c.res.Classes["known-finding-hit:"+sig]++
+		c.mu.Unlock()
+		if first {
+			c.ReportViolation(sig, msg, cas)
 		}
 		return
 	}
